@@ -220,7 +220,10 @@ ArityFaults == UNION {
 DeclTypes == { T("bit"), T("int"), T("string"), T("code"), T("dag"), Bits(4), Bits(2), ListT(T("int")), ListT(T("string")), ListT(T("bit")),
                ListT(ListT(T("int"))), Cls("Base"), Cls("Mid"), Cls("Mixin"), Cls("Other"), Cls("Both"), ListT(Cls("Base")), ListT(Cls("Mixin")) }
 
-Values == Atoms \cup ListLits \cup ClassVals \cup OpVals \cup CondVals
+\* operator applications with an untyped [] among the operands: only where the context gives the type (not in a defvar)
+TypedOnly == { V("op:if", LI, "!if(vBit, vInts, [])"), V("op:if", LI, "!if(vBit, [], vInts)"), V("op:listconcat", LI, "!listconcat([], vInts)"),
+               V("op:listconcat", LS, "!listconcat(vStrs, [], [\"z\"])"), V("op:cond", LI, "!cond(vBit: [], true: vInts)") }
+Values == Atoms \cup ListLits \cup ClassVals \cup OpVals \cup CondVals \cup TypedOnly
 
 (* slots: where a typed value is written.  "%" is replaced by a fresh number, "@T" by the type,    *)
 (* "@V" by the value.  decl = top-level declarations the statement needs (never wrapped),           *)
